@@ -66,6 +66,7 @@ class ContractAPI(object):
                 return r
             if pc1 >= len(script) or pc2 >= len(template):
                 break
+            start1 = pc1
             opcode1, data1, pc1, is_ok1 = self._script_tools.scriptStreamer.get_opcode(
                 script, pc1
             )
@@ -73,22 +74,26 @@ class ContractAPI(object):
                 template, pc2
             )
             l1 = 0 if data1 is None else len(data1)
+            # a placeholder stands for the canonical push of its data (what for_info rebuilds)
+            is_push = data1 is not None and script[
+                start1:pc1
+            ] == self._script_tools.scriptStreamer.compile_push_data(data1)
             if data2 == b"PUBKEY":
-                if l1 < 33 or l1 > 120:
+                if not is_push or l1 < 33 or l1 > 120:
                     break
                 r["PUBKEY_LIST"].append(data1)
             elif data2 == b"PUBKEYHASH":
-                if l1 != 160 / 8:
+                if not is_push or l1 != 160 / 8:
                     break
                 r["PUBKEYHASH_LIST"].append(data1)
             elif data2 == b"SEGWIT":
-                if l1 not in (256 / 8, 160 / 8):
+                if not is_push or l1 not in (256 / 8, 160 / 8):
                     break
                 r["SEGWIT_LIST"].append(data1)
             elif data2 == b"DATA":
                 r["DATA_LIST"].append(data1)
             elif data2 == b"SYNTHETIC_KEY":
-                if l1 != 32:
+                if not is_push or l1 != 32:
                     break
                 r["SYNTHETIC_KEY"].append(data1)
             elif (opcode1, data1) != (opcode2, data2):
